@@ -9,7 +9,17 @@ type argumentsObject struct {
 
 type mappedProperty struct {
 	valueProperty
-	v *Value
+	// the parameter binding; not a *Value, because stash.values is reallocated when an eval() adds a var
+	stash *stash
+	idx   int
+}
+
+func (p *mappedProperty) get() Value {
+	return p.stash.values[p.idx]
+}
+
+func (p *mappedProperty) set(v Value) {
+	p.stash.values[p.idx] = v
 }
 
 func (a *argumentsObject) getStr(name unistring.String, receiver Value) Value {
@@ -19,10 +29,10 @@ func (a *argumentsObject) getStr(name unistring.String, receiver Value) Value {
 func (a *argumentsObject) getOwnPropStr(name unistring.String) Value {
 	if mapped, ok := a.values[name].(*mappedProperty); ok {
 		if mapped.writable && mapped.enumerable && mapped.configurable {
-			return *mapped.v
+			return mapped.get()
 		}
 		return &valueProperty{
-			value:        *mapped.v,
+			value:        mapped.get(),
 			writable:     mapped.writable,
 			configurable: mapped.configurable,
 			enumerable:   mapped.enumerable,
@@ -43,7 +53,7 @@ func (a *argumentsObject) setOwnStr(name unistring.String, val Value, throw bool
 			a.val.runtime.typeErrorResult(throw, "Property is not writable: %s", name)
 			return false
 		}
-		*prop.v = val
+		prop.set(val)
 		return true
 	}
 	return a.baseObject.setOwnStr(name, val, throw)
@@ -77,7 +87,7 @@ func (i *argumentsPropIter) next() (propIterItem, iterNextFunc) {
 	}
 	if prop, ok := item.value.(*mappedProperty); ok {
 		if prop.writable && prop.enumerable && prop.configurable {
-			item.value = *prop.v
+			item.value = prop.get()
 		} else {
 			// not a plain value: let the consumer look up the attributes with getOwnProp()
 			item.value = nil
@@ -119,7 +129,7 @@ func (a *argumentsObject) defineOwnPropertyStr(name unistring.String, descr Prop
 			configurable: mapped.configurable,
 			writable:     true,
 			enumerable:   mapped.enumerable,
-			value:        *mapped.v,
+			value:        mapped.get(),
 		}
 
 		val, ok := a.baseObject._defineOwnProperty(name, existing, descr, throw)
@@ -129,7 +139,7 @@ func (a *argumentsObject) defineOwnPropertyStr(name unistring.String, descr Prop
 
 		if prop, ok := val.(*valueProperty); ok {
 			if !prop.accessor {
-				*mapped.v = prop.value
+				mapped.set(prop.value)
 			}
 			if prop.accessor || !prop.writable {
 				a._put(name, prop)
@@ -138,7 +148,7 @@ func (a *argumentsObject) defineOwnPropertyStr(name unistring.String, descr Prop
 			mapped.configurable = prop.configurable
 			mapped.enumerable = prop.enumerable
 		} else {
-			*mapped.v = val
+			mapped.set(val)
 			mapped.configurable = true
 			mapped.enumerable = true
 		}
